@@ -85,9 +85,10 @@ Section WithPython.
 
   Hypothesis float_returns_float : forall s f, py_float s = Some f -> exists k q r, f = VFloat k q r.
   Hypothesis float_reads_integers : forall z, py_float (strip (render_int z)) <> None.
-  Lemma ladders : parser_text_ladder = [(CId, [PTypeError]); (CFloat, [PTypeError]); (CInt, [])]
+  (* the shape of the ladders as the translator reads them from parser.py: a premise here (this file must compile whatever the source says);
+     Properties/C08.v and C09.v discharge it by computation on today's Gen/Code.v *)
+  Hypothesis ladders : parser_text_ladder = [(CId, [PTypeError]); (CFloat, [PTypeError]); (CInt, [])]
     /\ parser_attr_ladder = [(CId, [PTypeError; PValueError]); (CInt, [PValueError]); (CFloat, [])].
-  Proof. split; reflexivity. Qed.
   Lemma tladder_good r x : vtext r x -> exists pv, lv (tladder r x) = Some pv /\ render pv = x.
   Proof.
     unfold tladder. destruct ladders as [-> _]. intros [(lits & lit & E & I & -> & S)|[(z & P & A & ->)|(F & S)]].
@@ -117,6 +118,14 @@ Section WithPython.
     destruct (find_row a rows) as [[n ty q tc|e]|]; try contradiction. destruct (resolve lib_st 6 tc) as [r|]; try contradiction. apply aladder_good.
   Qed.
 
+  (* ---- the general premise: every text and every attribute value is a fixed point of its own ladder followed by str() ---- *)
+  Definition gLtext (tag:positive) (x:pstr) : Prop := exists pv, vrd_text tag x = Some pv /\ render pv = x.
+  Definition gLattr (tag:positive) (a:string) (x:pstr) : Prop := exists pv, vrd_attr tag a x = Some pv /\ render pv = x.
+  Lemma families_text tag x : vLtext tag x -> gLtext tag x.
+  Proof. exact (vtgood tag x). Qed.
+  Lemma families_attr tag a x : vLattr tag a x -> gLattr tag a x.
+  Proof. exact (vagood tag a x). Qed.
+
   (* ---- the document functions ---- *)
   Definition vP : Type := vpay pstr.
   Definition vQ : Type := vq pyval.
@@ -124,9 +133,11 @@ Section WithPython.
   Definition vrdp := rdv pstr pyval vrd_text vrd_attr.
   Definition vwrp := wrv pstr pyval [] render vreq vneeds.
   Definition vLp := Lv pstr vreq vLtext vLattr.
+  Definition gLp := Lv pstr vreq gLtext gLattr.
   Definition vparse : vdoc -> option (pelt vQ nstate) := pparse vP vQ nstate elem_start nfeed vrdp.
   Definition vemit : pelt vQ nstate -> option vdoc := pemit vP vQ nstate nfin nord vwrp.
   Definition vvalid : vdoc -> Prop := pvalid vP nstate elem_start elem_lang vLp.
+  Definition gvalid : vdoc -> Prop := pvalid vP nstate elem_start elem_lang gLp.
   Definition vsame : vdoc -> vdoc -> Prop := psame vP vQ vrdp vwrp.
 
   Section WithRows.
@@ -137,6 +148,14 @@ Section WithPython.
   Proof.
     apply (pdoc_roundtrip vP vQ nstate elem_start nfeed nfin nord elem_lang vrdp vwrp vLp (elem_good Hok)).
     intros tag p. apply (vgood pstr pyval [] vrd_text vrd_attr render vreq vneeds vLtext vLattr vtgood vagood).
+  Qed.
+  (* the same with the general premise: schema-valid structure, declared distinct attributes with the required ones present, and every text / attribute
+     value individually a fixed point of "read through the ladder, write with str()" (decimals whose repr is their text, union values, patterns, ...):
+     the whole document is given back exactly *)
+  Theorem tables_gdoc_roundtrip : forall d, gvalid d -> exists e, vparse d = Some e /\ vemit e = Some d.
+  Proof.
+    apply (pdoc_roundtrip vP vQ nstate elem_start nfeed nfin nord elem_lang vrdp vwrp gLp (elem_good Hok)).
+    intros tag p. apply (vgood pstr pyval [] vrd_text vrd_attr render vreq vneeds gLtext gLattr); auto.
   Qed.
   (* ANY document (valid or not) for which the parser returns and serialisation succeeds: same elements up to order at every node, and at
      every node the payload emitted is what wrp makes of what rdp read *)
@@ -225,6 +244,34 @@ Qed.
 (* float() for the correspondence: a finite table supplied by the harness (texts of the document -> what Python's float() returned) *)
 Fixpoint float_table (t:list (pstr * option pyval)) (s:pstr) : option pyval :=
   match t with [] => None | (k, v) :: r => if pstr_eqb k s then v else float_table r s end.
+(* the general premise as a boolean test (float() given as a table) *)
+Definition gLpb (pf:pstr -> option pyval) (tag:positive) (p:vP) : bool :=
+  match vrd_text pf tag (fst p) with Some pv => pstr_eqb (render pv) (fst p) | None => false end
+  && nodup_str (map fst (snd p))
+  && forallb (fun ax => match vrd_attr pf tag (fst ax) (snd ax) with Some pv => pstr_eqb (render pv) (snd ax) | None => false end) (snd p)
+  && forallb (fun a => mem_str a (map fst (snd p))) (vreq tag).
+Lemma gLpb_sound pf tag p : gLpb pf tag p = true -> gLp pf tag p.
+Proof.
+  unfold gLpb, gLp, Lv. intros H. apply andb_true_iff in H as [H R]. apply andb_true_iff in H as [H A]. apply andb_true_iff in H as [T N].
+  split; [|split; [|split]].
+  - unfold gLtext. destruct (vrd_text pf tag (fst p)) as [pv|]; [|discriminate]. exists pv. split; auto. apply pstr_eqb_eq; exact T.
+  - apply nodup_str_NoDup; exact N.
+  - apply Forall_forall. intros ax I. rewrite forallb_forall in A. specialize (A ax I). unfold gLattr.
+    destruct (vrd_attr pf tag (fst ax) (snd ax)) as [pv|]; [|discriminate]. exists pv. split; auto. apply pstr_eqb_eq; exact A.
+  - intros a I. rewrite forallb_forall in R. apply mem_str_In. apply R; exact I.
+Qed.
+Fixpoint gvalidb (pf:pstr -> option pyval) (d:vdoc) : bool :=
+  match d with PNode _ tag p kids =>
+    match elem_tpl tag with Some _ => true | None => false end && accepts (elem_schema_re tag) (map (ptag_of vP) kids) && gLpb pf tag p && forallb (gvalidb pf) kids end.
+Lemma gvalidb_sound (Hok : forall r, In r cm_rows -> cm_row_ok r = true) pf : forall d, gvalidb pf d = true -> gvalid pf d.
+Proof.
+  induction d using pdoc_ind2. unfold gvalid. simpl. intros B. apply andb_true_iff in B as [B K]. apply andb_true_iff in B as [B Pp]. apply andb_true_iff in B as [T A]. split.
+  - split; [|split].
+    + unfold elem_start. destruct (elem_tpl t); [discriminate|discriminate].
+    + unfold elem_lang. apply accepts_iff; [apply (elem_schema_re_wf Hok)|exact A].
+    + apply gLpb_sound; exact Pp.
+  - clear -H K. induction H as [|x r Hx Hr IH]; simpl in *; [exact I|]. apply andb_true_iff in K as [K1 K2]. split; [apply Hx; exact K1|apply IH; exact K2].
+Qed.
 Inductive vres := VNoParse | VNoEmit | VOk (d:vdoc).
 Definition vrun (ft:list (pstr * option pyval)) (d:vdoc) : vres :=
   match vparse (float_table ft) d with None => VNoParse | Some e => match vemit e with None => VNoEmit | Some d' => VOk d' end end.
